@@ -95,6 +95,8 @@ def run(check):
         metas[case["id"]] = (prog, [ref.RefSem(prog, scripts, ref.normalise_input(prog.input_schema, inp))], shape, 0, "two-preparations", None, [])
     stats = {"runs_checked": 0, "overlapped_groups": 0, "cancelled_runs": 0, "runs_after_failed_or_cancelled": 0, "max_overlap": 0}
     with harness.Runner() as rn:
+        if not rn.hang_oracle_works():
+            check.fail_broken("the hang oracle (Go runtime deadlock report) does not fire in this build")
         out = rn.run_cases(items + papi, per_case_timeout=120)
     for cid in sorted(out):
         o = out[cid]
